@@ -12,6 +12,7 @@ import (
 	"bytes"
 	"fmt"
 	"math"
+	"os"
 	"strings"
 	"testing"
 
@@ -47,6 +48,10 @@ const propID = "C13"
 
 func TestMain(m *testing.M) {
 	legacykm.Register()
+	if err := selfCheckScanner(); err != nil {
+		fmt.Fprintln(os.Stderr, err)
+		os.Exit(2)
+	}
 	evid.Main(m)
 }
 
